@@ -151,7 +151,8 @@ impl World {
                     self.bind_retries += 1;
                     return self.start();
                 }
-                return format!("exited:{}", st.code().unwrap_or(-1));
+                let why: String = log.lines().find(|l| l.starts_with("Error")).unwrap_or("").chars().filter(|c| !c.is_whitespace()).take(90).collect();
+                return format!("exited:{}:{}", st.code().unwrap_or(-1), why);
             }
             if t0.elapsed() > Duration::from_secs(60) {
                 let _ = child.kill();
